@@ -6,6 +6,7 @@ import (
 	"flag"
 	"fmt"
 	"os"
+	"runtime/pprof"
 	"sort"
 	"strconv"
 	"strings"
@@ -79,6 +80,13 @@ func Main() {
 			fmt.Println(p.GoPkg, len(p.Msgs), "messages")
 		}
 		return
+	}
+	if pf := os.Getenv("VERIF_CPUPROFILE"); pf != "" {
+		f, err := os.Create(pf)
+		if err == nil {
+			_ = pprof.StartCPUProfile(f)
+			defer pprof.StopCPUProfile()
+		}
 	}
 	start := time.Now()
 	if cfg.replay != "" {
@@ -204,4 +212,14 @@ func shrink(d *dynamicpb.Message, key string, failing func(*dynamicpb.Message) s
 
 func cloneDyn(d *dynamicpb.Message) *dynamicpb.Message {
 	return proto.Clone(d).(*dynamicpb.Message)
+}
+
+// sigFlav is the flavour component of violation signatures: the runtime flavour, plus "+ext" when the
+// message type has proto2 extensions declared for it in its unit (the generated extension snippets are a
+// separate, known-defective code path; see known_findings.jsonl).
+func sigFlav(t target) string {
+	if len(t.pkg.Exts[t.md.FullName()]) > 0 {
+		return t.pkg.Flavour + "+ext"
+	}
+	return t.pkg.Flavour
 }
